@@ -18,6 +18,7 @@ def run(ctx):
     filter_(ctx)
     stale(ctx)
     parity(ctx)
+    clcol(ctx)
     evict(ctx)
     lagged(ctx)
 
@@ -223,6 +224,36 @@ def parity(ctx):
     stop = tuple({c.bb for c in send})
     R.require(any(d in b.reachable(even_t, no_nodes=stop) for d in dele) and not any(d in b.reachable(odd_t, no_nodes=stop) for d in dele), "delete-iff-even", b.where(bb),
               "ChangeType::Delete is chosen iff cl mod 2 == 0", fail_msg="the Delete/Update choice no longer follows cl parity (even => deleted)")
+
+
+def clcol(ctx):
+    """the value whose parity decides deleted/updated must BE the causal length: on the buffered-apply path MatchableChange.cl
+    is read from a crsql_changes row, so the selected column at the index read as i64 must be `cl`   (added after C14-c)"""
+    F = ctx.F
+    R = ctx.rule("C14.clcol", "K6", "match_changes_from_db_version feeds MatchableChange.cl from the `cl` column of crsql_changes (reader index = writer column)")
+    b = F.get(UPD + "match_changes_from_db_version")
+    if not R.anchor(b, "match_changes_from_db_version", "fn updates::match_changes_from_db_version"):
+        return
+    fam = F.family(b)
+    sqls = [x[0] for y in fam for x in cm.sql_strings(y) if "crsql_changes" in x[0]]
+    aggs = [a for y in fam for a in cm.aggregates(y, "MatchableChange")]
+    if not (R.anchor(sqls, "sql", "SELECT .. FROM crsql_changes") and R.anchor(aggs, "MatchableChange", "MatchableChange construction")):
+        return
+    m = re.search(r"SELECT\s+(.*?)\s+FROM\s+crsql_changes", sqls[0], re.I | re.S)
+    cols = [c.strip().strip('"').lower() for c in m.group(1).split(",")] if m else []
+    gets = []
+    for y in fam:
+        for c in y.calls:
+            if c.f.endswith("Row::<'_>::get") and len(c.args) > 1 and op_const(c.args[1]) is not None and c.t.get("dest"):
+                gets.append((op_const(c.args[1]).get("v"), y.ty(c.t["dest"][0]), c))
+    ints = [g for g in gets if re.search(r"Result<i64,", g[1] or "")]
+    if not R.require(len(ints) == 1 and bool(cols), "one-int-column", b.where(), "exactly one integer column is read from the row (the causal length)",
+                     fail_msg="cannot identify the causal-length read: %d integer row reads, select list %s" % (len(ints), cols)):
+        return
+    k = ints[0][0]
+    R.require(isinstance(k, int) and k < len(cols) and cols[k] == "cl", "reads-cl", ints[0][2].where(), "row.get(%s) reads column `cl`" % k,
+              fail_msg="MatchableChange.cl is read from column %r of crsql_changes (index %s), not from `cl`: the delete/update verdict (cl parity) would follow an unrelated counter"
+                       % (cols[k] if isinstance(k, int) and k < len(cols) else None, k))
 
 
 CACHE_TY = re.compile(r"^indexmap::map::IndexMap<\(klukai_types::api::TableName, alloc::vec::Vec<u8>\), i64")
